@@ -1,7 +1,7 @@
 #!/bin/sh
 # run every stored seeded change against the quick check of the property it targets; one summary line each
 cd /verif
-for d in seeded/C*-[abc]; do
+for d in seeded/C*-[abcd]; do
   id=$(basename $d | cut -d- -f1)
   out=$(sh tools/try_seed.sh /verif/$d/patch.diff quick $id 2>&1)
   rc=$(echo "$out" | grep -o "exit=[0-9]*" | head -1)
